@@ -100,6 +100,10 @@ func (Engine) Generate(r *core.Rng, property, tier string) *core.Plan {
 	p.SetKnob("drop", int64(drop))
 	p.SetKnob("join", int64(join))
 	p.SetKnob("sponsor", int64(r.Pick(8, 1, 1, 1))) // 0 member, 1 outsider, 2 member about to leave, 3 member with forged proposal signature
+	if r.Bool(0.4) {
+		// some current arbiters are council members in a non-normal state
+		p.SetKnob("abnormal", int64(r.Range(1, max(1, n/3))))
+	}
 	pool := n + join + int(p.Knob("nout", 1))
 	// honest votes of the members, then what the network and Byzantine actors add
 	var msgs []Step
@@ -247,6 +251,7 @@ type sim struct {
 	acceptL  []msg
 	finished bool
 	nsub     int
+	abnormal int // how many of the current members are CRC arbiters in a non-normal state
 }
 
 func (s *sim) isMember(i int) bool {
@@ -258,10 +263,30 @@ func (s *sim) isMember(i int) bool {
 	return false
 }
 
+// canVote: a current arbiter in a normal state (a council member that is not
+// may neither sponsor nor vote, but still counts in the set the two-thirds
+// rule is taken over).
+func (s *sim) canVote(i int) bool {
+	for k, m := range s.members {
+		if m == i {
+			return k >= s.abnormal
+		}
+	}
+	return false
+}
+
 func (s *sim) install() {
 	var ms []state.ArbiterMember
-	for _, i := range s.members {
-		ar, err := state.NewOriginArbiter(s.keys[i].pub)
+	for k, i := range s.members {
+		var ar state.ArbiterMember
+		var err error
+		if k < s.abnormal {
+			// a CRC arbiter whose council member is not in a normal state: still
+			// a current arbiter, still counted by the two-thirds rule
+			ar, err = state.NewCRCArbiter(s.keys[i].pub, s.keys[i].pub, &crstate.CRMember{}, false)
+		} else {
+			ar, err = state.NewOriginArbiter(s.keys[i].pub)
+		}
 		if err != nil {
 			panic(err)
 		}
@@ -296,7 +321,7 @@ func (s *sim) judge(ms []msg, propHash common.Uint256) verdict {
 	v.allClean = true
 	for _, m := range ms {
 		forThis := m.l.claims == propHash
-		good := m.l.accept && forThis && m.l.sigValid && m.l.signer >= 0 && s.isMember(m.l.signer)
+		good := m.l.accept && forThis && m.l.sigValid && m.l.signer >= 0 && s.canVote(m.l.signer)
 		if good && !seen[m.l.signer] {
 			seen[m.l.signer] = true
 			v.distinctValid++
@@ -347,7 +372,7 @@ func (s *sim) submit(tag string, ms []msg, prop payload.DPOSProposal) (accepted 
 	accepted = errS == nil && errC == nil
 	v := s.judge(ms, prop.Hash())
 	sponsorIdx := s.keyIndex(prop.Sponsor)
-	sponsorMember := sponsorIdx >= 0 && s.isMember(sponsorIdx)
+	sponsorMember := sponsorIdx >= 0 && s.canVote(sponsorIdx)
 	sponsorSigValid := s.sponsorSigValid || string(prop.Sign) != string(s.cur.Sign)
 	s.nsub++
 	c.Logf("submit %s n=%d votes=%d distinct-valid=%d sanity=%v context=%v block=%v", tag, n, len(ms), v.distinctValid, errS == nil, errC == nil, errB == nil)
@@ -523,6 +548,7 @@ func (e Engine) Execute(c *core.Ctx) {
 	saved := blockchain.DefaultLedger
 	blockchain.DefaultLedger = &blockchain.Ledger{Arbitrators: arb}
 	defer func() { blockchain.DefaultLedger = saved }()
+	s.abnormal = int(p.Knob("abnormal", 0))
 	s.install()
 
 	// the block and the two proposals (an earlier view's and the current one)
@@ -696,9 +722,15 @@ func (s *sim) boundary() {
 		s.keys = append(s.keys, mkKey(uint64(c.Plan.Knob("keyseed", 1)), 1000+i))
 		s.members = append(s.members, i)
 	}
+	// (non-normal council members: at most so many that the normal ones alone
+	// can still reach the quorum of the whole set)
+	savedAbnormal := s.abnormal
+	if s.abnormal > (n-1)/3 {
+		s.abnormal = (n - 1) / 3
+	}
 	s.install()
 	defer func() {
-		s.keys, s.members = savedKeys, savedMembers
+		s.keys, s.members, s.abnormal = savedKeys, savedMembers, savedAbnormal
 		s.install()
 	}()
 	sp := s.members[n-1]
@@ -709,13 +741,16 @@ func (s *sim) boundary() {
 	defer func() { s.sponsor, s.cur, s.sponsorSigValid = savedSponsor, savedCur, savedValid }()
 	var all []msg
 	for _, i := range s.members {
+		if !s.canVote(i) {
+			continue
+		}
 		v := payload.DPOSProposalVote{ProposalHash: prop.Hash(), Signer: s.keys[i].pub, Accept: true}
 		v.Sign = s.keys[i].sign(v.Data())
 		all = append(all, msg{v: v, l: label{signer: i, accept: true, forCur: true, sigValid: true, claims: v.ProposalHash}})
 	}
 	q := -1
 	monotone := true
-	for k := 0; k <= n; k++ {
+	for k := 0; k <= len(all); k++ {
 		acc := s.submit(fmt.Sprintf("boundary-k=%d", k), all[:k], prop)
 		if acc && q < 0 {
 			q = k
